@@ -1,10 +1,13 @@
 CONSTANTS
- F = {"fa", "fb", "fc", "fd"}
+ NF = 4
  MaxOps = 5
  MaxComps = 2
+ EmitFrom = 0
 INIT Init
 NEXT Next
 VIEW View
 INVARIANT PrecOK
+INVARIANT CompOrderOK
+INVARIANT TraceOK
 ACTION_CONSTRAINT Emit
 CHECK_DEADLOCK FALSE
